@@ -76,6 +76,19 @@ def _worker(task):
                 any_feasible = True
                 break
         info["canary_feasible_path"] = any_feasible
+        # vacuity guard against contracts/EXPECTED.json (recorded on the unchanged tree): a function
+        # that had normal-return paths must still have some, and must still produce obligations
+        try:
+            exp = json.load(open(os.path.join(VERIF, "contracts", "EXPECTED.json"))).get(key)
+        except Exception:
+            exp = None
+        nret = sum(1 for o in outs if o.kind == "return")
+        info["returns"] = nret
+        if exp and "error" not in exp:
+            if exp["returns"] > 0 and nret == 0:
+                info["vacuous"] = f"no normal-return path (EXPECTED.json records {exp['returns']})"
+            if exp["obligations"] > 0 and len(obs) == 0:
+                info["vacuous"] = "no obligations generated"
         results = []
         for i, ob in enumerate(obs):
             if i % nshards != shard:
